@@ -135,6 +135,11 @@ var faultSnippets = map[string]string{
 	"range-noniter":         `forRange k := fobj { t = 1 }`,
 	"range-int":             `forRange k := fnum { t = 1 }`,
 	"four-level":            `t = fobj.In.X.Y`,
+	"unexp-return":          `return fobj.hidden`,
+	"unexp-return-local":    "t = fobj.hidden\n    return t",
+	"unexp-arg":             `ev(fobj.hidden)`,
+	"unexp-set":             `fobj.hidden = 1`,
+	"unexp-conc":            "conc {\n fobj.hidden = 1\n u = 1\n }",
 }
 
 type FIn struct{ I int64 }
@@ -143,10 +148,11 @@ func (f *FIn) M() int64    { return f.I }
 func (f *FIn) Boom() int64 { panic("three level method panics") }
 
 type FObj struct {
-	I     int64
-	B     bool
-	In    *FIn
-	NilIn *FIn
+	I      int64
+	B      bool
+	In     *FIn
+	NilIn  *FIn
+	hidden int64
 }
 
 func (f *FObj) M() int64         { return f.I }
